@@ -110,6 +110,16 @@ func drive(d *mon.Driver, replay string) int {
 	}
 
 	pending := map[string][]raceReport{} // case id -> reports of its process (filled by AfterBatch)
+	pendingErr := map[string]string{}    // case id -> full stderr of a process that was killed or died
+	allSigs := map[string]int{}          // every violation signature with its count (the driver prints only the first few)
+	firstDetail := map[string]string{}
+	violation := func(sig, detail string, c CaseData) {
+		allSigs[sig]++
+		if _, ok := firstDetail[sig]; !ok && !strings.HasPrefix(sig, "race:") {
+			firstDetail[sig] = mon.Truncate(detail, 2500)
+		}
+		d.Violation(sig, detail, c)
+	}
 	sigs := map[string]*sigAgg{}
 	entryPairs := map[string]int{}
 	stackPairs := map[string]int{}
@@ -134,6 +144,12 @@ func drive(d *mon.Driver, replay string) int {
 		}
 		if len(batch) > 0 {
 			pending[batch[0].ID] = append(pending[batch[0].ID], reps...)
+			if b, err := os.ReadFile(filepath.Join(dir, "stderr.txt")); err == nil && (strings.Contains(string(b), "SIGQUIT") || strings.Contains(string(b), "fatal error:") || strings.Contains(string(b), "panic:")) {
+				if len(b) > 4<<20 {
+					b = b[:4<<20]
+				}
+				pendingErr[batch[0].ID] = string(b)
+			}
 		}
 	}
 
@@ -142,6 +158,8 @@ func drive(d *mon.Driver, replay string) int {
 		_ = json.Unmarshal(mc.Data, &c)
 		reps := pending[mc.ID]
 		delete(pending, mc.ID)
+		fullErr := pendingErr[mc.ID]
+		delete(pendingErr, mc.ID)
 		d.Event("processes_run", 1)
 		goroutines += c.N
 		d.Event("goroutines_released_from_barriers", c.N)
@@ -152,7 +170,7 @@ func drive(d *mon.Driver, replay string) int {
 		inProcCount := map[string]int{}
 		// A stack that could not be restored (or whose risor function was not recorded) leaves one
 		// side of the pair unknown. Such a report is counted under the complete signature of the same
-		// process that shares its known side, if there is one; otherwise it keeps "-" for that side.
+		// process that shares its known side, if there is one; otherwise that side is named "(non-risor code)".
 		completeBySide := map[string]string{}
 		for i := range reps {
 			a, b := innermostRisor(reps[i].A), innermostRisor(reps[i].B)
@@ -202,18 +220,19 @@ func drive(d *mon.Driver, replay string) int {
 			sigs[sig].Processes++
 			detail := fmt.Sprintf("data race on interpreter/package state between evaluations on separate VMs (each with its own globals)\nprocess: %s  goroutines=%d GOMAXPROCS=%d mode=%s kinds=%s\nreports with this signature in this process: %d; outermost risor entry points: %s\n%s",
 				mc.ID, c.N, c.Procs, c.Mode, strings.Join(c.Kinds, ","), inProcCount[sig], r.entryPair(), r.describe())
-			d.Violation(sig, detail, c)
+			violation(sig, detail, c)
 		}
 
 		switch res.Status {
 		case "timeout":
 			note := "watchdog timeout in process " + mc.ID
-			if res.Crash != nil {
-				note += "; goroutines at SIGQUIT: " + condenseDump(res.Crash.StderrTail)
-				if dir := os.Getenv("C09_DEBUG_DIR"); dir != "" {
-					_ = os.MkdirAll(dir, 0o755)
-					_ = os.WriteFile(filepath.Join(dir, mc.ID+".stderr.txt"), []byte(res.Crash.StderrTail), 0o644)
-				}
+			if fullErr == "" && res.Crash != nil {
+				fullErr = res.Crash.StderrTail
+			}
+			note += "; goroutines at SIGQUIT: " + condenseDump(fullErr)
+			if dir := os.Getenv("C09_DEBUG_DIR"); dir != "" {
+				_ = os.MkdirAll(dir, 0o755)
+				_ = os.WriteFile(filepath.Join(dir, mc.ID+".stderr.txt"), []byte(fullErr), 0o644)
 			}
 			d.Event("watchdog_timeouts", 1)
 			d.Inconclusive(note)
@@ -227,12 +246,19 @@ func drive(d *mon.Driver, replay string) int {
 			if res.Crash != nil {
 				stderr, exit = res.Crash.StderrTail, res.Crash.Exit
 			}
+			if fullErr != "" {
+				stderr = fullErr
+			}
+			if dir := os.Getenv("C09_DEBUG_DIR"); dir != "" {
+				_ = os.MkdirAll(dir, 0o755)
+				_ = os.WriteFile(filepath.Join(dir, mc.ID+".crash.stderr.txt"), []byte(stderr), 0o644)
+			}
 			sig, fatal := fatalSignature(stderr)
 			if sig == "" {
 				sig = "worker-died:" + exit
 			}
 			d.Event("worker_deaths", 1)
-			d.Violation(sig, fmt.Sprintf("the worker process died while %d goroutines evaluated on separate VMs: %s (%s)\nprocess: %s GOMAXPROCS=%d mode=%s kinds=%s\n%s",
+			violation(sig, fmt.Sprintf("the worker process died while %d goroutines evaluated on separate VMs: %s (%s)\nprocess: %s GOMAXPROCS=%d mode=%s kinds=%s\n%s",
 				c.N, fatal, exit, mc.ID, c.Procs, c.Mode, strings.Join(c.Kinds, ","), mon.Truncate(stderr, 3000)), c)
 			return
 		}
@@ -280,7 +306,7 @@ func drive(d *mon.Driver, replay string) int {
 				continue
 			}
 			seen[sig] = true
-			d.Violation(sig, fmt.Sprintf("an evaluation gave a different result when run concurrently with evaluations on other VMs than when run alone\nprocess: %s goroutines=%d GOMAXPROCS=%d mode=%s\npath %s, goroutine %d, result line %d\n concurrent: %s\n alone:      %s",
+			violation(sig, fmt.Sprintf("an evaluation gave a different result when run concurrently with evaluations on other VMs than when run alone\nprocess: %s goroutines=%d GOMAXPROCS=%d mode=%s\npath %s, goroutine %d, result line %d\n concurrent: %s\n alone:      %s",
 				mc.ID, c.N, c.Procs, c.Mode, m.Path, m.G, m.Line, m.Conc, m.Seq), c)
 		}
 		if samples < 4 && o.Sample != "" {
@@ -323,11 +349,15 @@ func drive(d *mon.Driver, replay string) int {
 		*sigAgg
 		DistinctStackPairs int `json:"distinct_stack_pairs"`
 	}
-	var so []sigOut
+	so := []sigOut{}
 	for _, s := range sortedKeys(sigs) {
 		so = append(so, sigOut{Signature: s, sigAgg: sigs[s], DistinctStackPairs: len(sigs[s].Stacks)})
 	}
 	d.Extra("race_signatures", so)
+	d.Extra("violation_signatures_all", allSigs)
+	if len(firstDetail) > 0 {
+		d.Extra("first_witness_of_each_non_race_signature", firstDetail)
+	}
 	d.Extra("race_reports_distinct_by_entry_point_pair", len(entryPairs))
 	d.Extra("race_reports_distinct_by_stack_pair_without_lines", len(stackPairs))
 	d.Extra("race_reports_distinct_signatures", len(sigs))
@@ -345,37 +375,46 @@ func drive(d *mon.Driver, replay string) int {
 	return d.Finish(d.N(5000, 100000), d.N(100, 2500))
 }
 
-// condenseDump summarises a SIGQUIT goroutine dump: per goroutine its state and its innermost
-// risor / harness frame.
+// condenseDump summarises a SIGQUIT goroutine dump: per goroutine (those inside risor or harness
+// code first) its state, the function it is in and its innermost risor / harness frame.
 func condenseDump(stderr string) string {
-	var out []string
-	blocks := strings.Split(stderr, "\n\n")
-	for _, b := range blocks {
+	var inside, other []string
+	for _, b := range strings.Split(stderr, "\n\n") {
 		lines := strings.Split(strings.TrimSpace(b), "\n")
 		if len(lines) == 0 || !strings.HasPrefix(lines[0], "goroutine ") {
 			continue
 		}
+		cut := func(l string) string {
+			if i := strings.LastIndex(l, "("); i > 0 {
+				l = l[:i]
+			}
+			return l
+		}
 		where := ""
 		for _, l := range lines[1:] {
 			if strings.HasPrefix(l, risorMod) || strings.HasPrefix(l, "verif/") {
-				if i := strings.LastIndex(l, "("); i > 0 {
-					l = l[:i]
-				}
-				where = shortFunc(l)
+				where = shortFunc(cut(l))
 				break
 			}
 		}
 		top := ""
 		if len(lines) > 1 {
-			top = lines[1]
-			if i := strings.LastIndex(top, "("); i > 0 {
-				top = top[:i]
+			top = cut(lines[1])
+		}
+		head := strings.TrimSuffix(lines[0], ":")
+		if i := strings.Index(head, " gp="); i > 0 {
+			if j := strings.Index(head, "["); j > i {
+				head = head[:i] + " " + head[j:]
 			}
 		}
-		out = append(out, strings.TrimSuffix(lines[0], ":")+" "+top+" in "+orDash(where))
-		if len(out) >= 12 {
-			break
+		if where != "" {
+			inside = append(inside, head+" "+top+" in "+where)
+		} else if len(other) < 3 {
+			other = append(other, head+" "+top)
 		}
 	}
-	return mon.Truncate(strings.Join(out, "; "), 1500)
+	if len(inside) > 24 {
+		inside = append(inside[:24], fmt.Sprintf("… %d more", len(inside)-24))
+	}
+	return mon.Truncate(strings.Join(append(inside, other...), "; "), 3000)
 }
